@@ -480,6 +480,12 @@ def recursive_wiring(ctx, ev):
         d, cfgs = None, []
     R.check("C09-D4 recursive wiring", d is not None, "children = the names listed in the configuration",
             mod=init.module, node=loop.node or init.node, function=fq, expected="for dep in envelope_json['dependencies'] (or its items())", found=repr(it)[:160])
+    # every configured dependency is loaded (and thereby checked): no condition inside the loop skips the construction of a child
+    cguards = [g_ for e_, g_ in _with_guards(loop.args[1].args) if isinstance(e_, App) and e_.op == "eff:call" and e_.args[0] == ctor]
+    skipping = [repr(c_)[:80] for g_ in cguards for c_, _pol in g_]
+    R.check("C09-D4 recursive wiring", bool(cguards) and not skipping, "every name listed in the configuration gets a child (is loaded and checked)",
+            mod=init.module, node=ctor.node or init.node, function=fq, expected="RecursiveSigner(self._load_dependency(dep), ...) for every dep, unconditionally",
+            found=f"the child is only constructed under {skipping[:2]}: a listed dependency that is absent or invalid is not refused on the other path")
     args = [a_ for a_ in ctor.args[2:] if not (isinstance(a_, App) and a_.op == "kw")]
     kws = {a_.args[0].v: a_.args[1] for a_ in ctor.args[2:] if isinstance(a_, App) and a_.op == "kw"}
     names = ["envelope", "envelope_json", "envelope_name", "sign_script", "kms_script", "algorithm", "context"]
